@@ -70,7 +70,7 @@ def stepSerde (cx : Ctx) (rc : Recv) (op : String) (args : List String) (rawLine
     | _ :: rest =>
       let text := marker.intercalate rest
       match parseJson text with
-      | none => pure { cx.same with toks := ["err"] }
+      | none => if cx.elem.ledgered then none else pure { cx.same with toks := ["err"] }      -- (a streaming parser may have decoded cells already)
       | some d =>
         let d := if tr = "value" then viaValue d else d
         match deserialize decElem d with
@@ -80,7 +80,10 @@ def stepSerde (cx : Ctx) (rc : Recv) (op : String) (args : List String) (rawLine
             | .obj kvs => (kvs.filter (·.1 == "data")).flatMap fun kv => ((decVec decElem kv.2).getD [])
             | _ => []
           pure { cx.same with toks := [toString t'.numCols, toString t'.numRows, fmtList (cx.vs t'.data)], drops := cx.dr (cx.vs allData) }
-        | .err => pure { cx.same with toks := ["err"] }
+        | .err =>
+          -- which `data` arrays had been decoded (and are dropped) before the error is not part of the document model: with a
+          -- drop ledger the prediction is left open (the oracle still judges the step)
+          if cx.elem.ledgered then none else pure { cx.same with toks := ["err"] }
         | .panic => pure (cx.fail .panic)
     | _ => none
   | _, _ => none
